@@ -551,10 +551,19 @@ impl C17 {
 
     // ---------------- gds ----------------
     fn run_gds(&self, g: &Graph, listing: &[usize], key: &str, cx: &mut Cx) {
+        self.run_gds_named(g, listing, key, false, cx);
+        if g.n >= 2 {
+            // struct names that differ only in letter case (GDSII names are case-sensitive)
+            self.run_gds_named(g, listing, key, true, cx);
+            cx.tag("gds-names-differ-only-in-case");
+        }
+    }
+    fn run_gds_named(&self, g: &Graph, listing: &[usize], key: &str, case_names: bool, cx: &mut Cx) {
         use gds21::*;
         cx.stats.executions += 1;
         cx.stats.transitions += listing.len() as u64;
-        let names: Vec<String> = (0..g.n).map(|i| format!("s{i}")).collect();
+        const CASE_NAMES: [&str; 8] = ["inv", "INV", "Inv", "iNV", "inV", "InV", "iNv", "INv"];
+        let names: Vec<String> = (0..g.n).map(|i| if case_names { CASE_NAMES[i].to_string() } else { format!("s{i}") }).collect();
         let mut lib = GdsLibrary::new("lib");
         lib.units = GdsUnits::new(1e-3, 1e-9);
         for &i in listing {
@@ -581,7 +590,7 @@ impl C17 {
                 .map(|l| l.cells.iter().map(|p| Self::idx_of(&names, &p.read().unwrap().name)).collect::<Vec<usize>>())
                 .map_err(|e| format!("{e:?}"))
         });
-        self.judge(key, "gds-import", g, listing, res, cx);
+        self.judge(key, if case_names { "gds-import+names-differ-only-in-case" } else { "gds-import" }, g, listing, res, cx);
     }
 
     // ---------------- tetris ----------------
@@ -607,6 +616,10 @@ impl C17 {
                 let outline = Outline::rect(10 + i as isize, 10).unwrap();
                 if abs_sinks && g.adj[i] == 0 {
                     Ptr::new(Cell::from(tetris::abs::Abstract::new(names[i].clone(), 0, outline)))
+                } else if variant == 3 && g.adj[i] == 0 {
+                    // a sink that wraps a raw layout
+                    let rawlay = raw::Layout { name: names[i].clone(), insts: vec![], elems: vec![], annotations: vec![] };
+                    Ptr::new(Cell::from(tetris::cell::RawLayoutPtr { outline, metals: 0, lib: Ptr::new(raw::Library::new("wrapped", raw::Units::Nano)), cell: Ptr::new(raw::Cell::from(rawlay)) }))
                 } else {
                     Ptr::new(Cell::from(Layout::new(names[i].clone(), 0, outline)))
                 }
@@ -640,6 +653,10 @@ impl C17 {
         }
         self.run_tetris_variant(g, listing, key, 2, cx);
         cx.tag("tetris-both-views");
+        if (0..g.n).any(|i| g.adj[i] == 0) {
+            self.run_tetris_variant(g, listing, key, 3, cx);
+            cx.tag("tetris-raw-wrapping-sinks");
+        }
         // acyclic graphs whose edges are arrays handed over in `Layout::places` (they become instances only when the
         // cell is placed): gridded -> raw lists every cell after the cells it places
         if g.adj.iter().take(g.n).any(|a| *a != 0) && !g.cyclic_within(g.reachable(listing)) {
@@ -715,7 +732,7 @@ impl C17 {
         let res = guard(|| {
             lib.dep_order().map(|v| v.iter().map(|p| Self::idx_of(&names, &p.read().unwrap().name)).collect::<Vec<usize>>()).map_err(|e| format!("{e:?}"))
         });
-        self.judge(key, ["tetris-dep_order", "tetris-dep_order+abstract-only-sinks", "tetris-dep_order+both-views"][variant as usize], g, listing, res, cx);
+        self.judge(key, ["tetris-dep_order", "tetris-dep_order+abstract-only-sinks", "tetris-dep_order+both-views", "tetris-dep_order+raw-wrapping-sinks"][variant as usize], g, listing, res, cx);
         // the same library object ordered again after an edit that keeps the number of cells: one more instance
         // (the first edge i -> j, i != j, the graph does not have, from a cell that has a layout)
         {
@@ -749,7 +766,7 @@ impl C17 {
         let res = guard(|| {
             tetris::conv::proto::ProtoExporter::export(&lib).map(|p| p.cells.iter().map(|c| Self::idx_of(&names, &c.name)).collect::<Vec<usize>>()).map_err(|e| format!("{e:?}"))
         });
-        self.judge(key, ["tetris-proto-export", "tetris-proto-export+abstract-only-sinks", "tetris-proto-export+both-views"][variant as usize], g, listing, res, cx);
+        self.judge(key, ["tetris-proto-export", "tetris-proto-export+abstract-only-sinks", "tetris-proto-export+both-views", "tetris-proto-export+raw-wrapping-sinks"][variant as usize], g, listing, res, cx);
         // Placer::place walks the cells in dependency order as well
         let res = guard(|| {
             tetris::placer::Placer::place(lib, Self::empty_stack())
@@ -1074,7 +1091,7 @@ impl Driver for C17 {
         let m = tier.pick(3, 4);
         Describe {
             rule: format!(
-                "generic utils::DepOrder: every labelled digraph on 1..=4 nodes including self-loops (2^(n*n)) x every ordered non-empty sub-list of the nodes as the item slice (so reachable != all) and every listing that names a node more than once (up to n + 1 entries for n <= 3, up to 3 entries for n = 4); every loop-free digraph on 5 nodes (2^20) x {} listing orders. Embedded orderers through public entry points, every digraph on 1..={m} nodes with self-loops{} x every listing permutation, edges realised as instances / SREF+AREF / relative placements, raw and tetris graphs additionally with every sink cell abstract-only (no layout view) with every cell holding both an abstract and a layout view, and (raw DepOrder) with all cells going by one and the same name: raw DepOrder::order and Library::to_proto (cell list order), Library::from_gds (imported cell order), tetris Library::dep_order (and once more on the same library object after one more instance was added; and on the not yet placed library whose instances are placed relative to one another), tetris ProtoExporter::export, Placer::place (cell graph), RawExporter::convert on acyclic graphs whose edges are arrays handed over in Layout::places (raw cell order), and Placer::place over every functional relation graph on 1..={m} instances ((n+1)^n: chains, stars, trees, self-loops, cycles) x every listing permutation, each also with the last listed instance present but not listed in the layout (reachable only through a relation), with the relatively placed instances handed over in Layout::places instead of Layout::instances, and with the first listed instance named a second time in Layout::places. A state is (orderer, graph, listing); non-trivial = graph has at least one edge. Oracle: reachable set by DFS, cycle by Kahn elimination; Ok order must be exactly the reachable set, duplicate-free, every node after all its dependencies; reachable cycle => Err.",
+                "generic utils::DepOrder: every labelled digraph on 1..=4 nodes including self-loops (2^(n*n)) x every ordered non-empty sub-list of the nodes as the item slice (so reachable != all) and every listing that names a node more than once (up to n + 1 entries for n <= 3, up to 3 entries for n = 4); every loop-free digraph on 5 nodes (2^20) x {} listing orders. Embedded orderers through public entry points, every digraph on 1..={m} nodes with self-loops{} x every listing permutation, edges realised as instances / SREF+AREF / relative placements, raw and tetris graphs additionally with every sink cell abstract-only (no layout view), tetris graphs with every sink cell wrapping a raw layout, with every cell holding both an abstract and a layout view, and (raw DepOrder) with all cells going by one and the same name: raw DepOrder::order and Library::to_proto (cell list order), Library::from_gds (imported cell order; also with struct names that differ only in letter case), tetris Library::dep_order (and once more on the same library object after one more instance was added; and on the not yet placed library whose instances are placed relative to one another), tetris ProtoExporter::export, Placer::place (cell graph), RawExporter::convert on acyclic graphs whose edges are arrays handed over in Layout::places (raw cell order), and Placer::place over every functional relation graph on 1..={m} instances ((n+1)^n: chains, stars, trees, self-loops, cycles) x every listing permutation, each also with the last listed instance present but not listed in the layout (reachable only through a relation), with the relatively placed instances handed over in Layout::places instead of Layout::instances, and with the first listed instance named a second time in Layout::places. A state is (orderer, graph, listing); non-trivial = graph has at least one edge. Oracle: reachable set by DFS, cycle by Kahn elimination; Ok order must be exactly the reachable set, duplicate-free, every node after all its dependencies; reachable cycle => Err.",
                 if tier.is_thorough() { "all 120" } else { "8 (identity, reverse, 4 rotations, one shuffle)" },
                 if tier.is_thorough() { " and every digraph on 5 nodes without self-loops (2^20)" } else { "" }
             ),
